@@ -33,6 +33,16 @@ CLAIMED = {
              "compared with reachability from a seed.",
         note="graphs beyond the enumerated sizes, outputs written through slices and fully non-linear 4-chains are outside; "
              "module set: a polynomial test module with hand-written adjoint, EinSum, ConcatSignal, Scaling, MathGeneral."),
+    "C03": dict(
+        text="Networks with caching components (Poisson assembly -> LinSolve -> EinSum, dense LinSolve, OverhangFilter, "
+             "DensityFilter/FilterConv, SystemOfEquations, StaticCondensation, AssembleGeneral with add_constant, "
+             "aggregation with an active set) are driven through histories of set-input / response / seed / sensitivity / "
+             "reset calls with independent symbolic inputs and seeds per cycle; every state and sensitivity after the "
+             "last cycle is compared entry-wise (z3) with a freshly built identical network evaluated once; reset() must "
+             "leave no sensitivity, an unseeded sensitivity() must change nothing.",
+        note="float64 as exact reals; linear solves through exact factor models / the unique explicit solution so that "
+             "both networks give comparable terms; 6 history shapes (<= 14 calls); path budgets stated; D11 (solver and "
+             "symmetry flags kept from the first matrix) is a known finding confined to the class-change templates."),
     "C06": dict(
         text="The real LDAWrapper (get_diagonal_indices, update, solve, _do_solve_1rhs, residual) around a counting contract "
              "oracle, for every off-diagonal zero pattern of 2x2 (3x3 thorough) matrices and histories of update/solve "
@@ -82,6 +92,15 @@ CLAIMED = {
              "and complex data in lock-step with an explicit-copy reference model; every state/sensitivity entry and "
              "every None-ness/aliasing fact is compared after each step (z3 decides the entry-wise equalities).",
         note="history length <= 4 quick / 6 thorough (seeded subset), ranks <= 3; integer index arrays without repeats."),
+    "C19": dict(
+        text="The unmodified finite_difference routine runs on symbolic states with a symbolic perturbation size dx "
+             "(np.nditer replaced by a pure-Python iterator, np.random.rand by arbitrary symbols, tol by an object that is "
+             "never exceeded); for every value handed to test_fn z3 proves: the analytical value equals the block's own "
+             "back-propagated sensitivity for the seed used, fd*dx equals the difference of the seeded real responses, "
+             "exactly the expected entries (and the imaginary pass of complex inputs) are visited, a deliberately wrong "
+             "Jacobian entry shows up as a non-matching pair, states are restored and no sensitivity is left.",
+        note="inputs with <= 4 perturbed entries (the routine's reporting code forks ~3 ways per value); the printed report "
+             "and the tolerance counting are outside."),
     "C20": dict(
         text="write_to_vti executed on array stand-ins whose sizes/shapes are bit-vector integers (grid sizes <= 12, "
              "component counts <= 6) with the file recorded in memory: section, component count, padding, extent, spacing "
